@@ -8,7 +8,7 @@ use serde::{Deserialize, Serialize};
 use serde_json::Value as J;
 use std::collections::BTreeMap;
 
-pub const KEYS: [&str; 2] = ["a", "ab"]; // prefix-related on purpose
+pub const KEYS: [&str; 3] = ["a", "ab", "a_b"]; // related on purpose: prefix, and prefix + underscore (conflict records are named $conflicts_<key>_<id>)
 
 #[derive(Clone, Debug, Serialize, Deserialize, PartialEq)]
 pub enum Step {
@@ -29,7 +29,7 @@ pub struct Case {
 }
 
 pub fn step_strategy() -> impl Strategy<Value = Step> {
-    let k = 0..2usize;
+    let k = 0..3usize;
     let a = 0..2usize;
     prop_oneof![
         2 => k.clone().prop_map(|k| Step::PlainSet { k }),
@@ -321,6 +321,7 @@ fn alphabet() -> Vec<Step> {
         Step::PlainSet { k: 0 },
         Step::SetSafeStale { k: 0 },
         Step::SetSafeStale { k: 1 },
+        Step::SetSafeStale { k: 2 },
         Step::SetSafeFresh { k: 0 },
         Step::ArbiterConnect { a: 0 },
         Step::ArbiterConnect { a: 1 },
